@@ -154,6 +154,11 @@ static int32_t wr_data(struct jls_core_fsr_s * self) {
     }
     uint32_t data_length = (self->data->header.entry_count * sample_size_bits(self) + 7) / 8;
     uint32_t payload_length = sizeof(struct jls_fsr_data_s) + data_length;
+    uint8_t pending_bits = (uint8_t) ((self->data->header.entry_count * sample_size_bits(self)) % 8);
+    if (pending_bits) {
+        // partial final block: the trailing bits are still held in the shift buffer
+        ((uint8_t *) self->data->data)[data_length - 1] = self->shift_buffer & ((1 << pending_bits) - 1);
+    }
     bool omit_data = (self->write_omit_data > 1);
     struct jls_core_track_s * track = &self->parent->tracks[JLS_TRACK_TYPE_FSR];
 
